@@ -110,7 +110,12 @@ func main() {
 	io := hx.Create(filepath.Join(*out, "impl.out"))
 	oo := hx.Create(filepath.Join(*out, "obs.out"))
 	defer func() { cf.Close(); io.Close(); oo.Close() }()
+	hangs := 0
 	for _, l := range logs {
+		if hangs >= 3 {
+			// the code under test keeps dead-locking: stop here, the run errors written so far are the verdict
+			break
+		}
 		if *pairs {
 			// the engine keys every batchable command changes (hypothesis Hwrites of isolation_concrete)
 			ws, err := x.writeSets(l, "mem")
@@ -127,6 +132,12 @@ func main() {
 			ro, err := runGuarded(x, l, v)
 			if err != nil {
 				oo.Printf("%s\trunerr\t%s\t-\t-\n", v.ID, strings.ReplaceAll(err.Error(), "\t", " "))
+				if strings.HasPrefix(err.Error(), "timeout") {
+					hangs++
+					if hangs >= 3 {
+						break
+					}
+				}
 				continue
 			}
 			oo.Printf("%s\t%s\t%s\t%s\t%s\n", v.ID, strings.Join(ro.replies, " ; "), ro.dump, ro.raw, ro.note)
